@@ -626,9 +626,27 @@ class StmtMixin:
             first_iter.append((name, nv, v))
         h.ghost.setdefault('$first_iter', [])
         h.ghost['$first_iter'] = h.ghost['$first_iter'] + first_iter
+        # the function's `modifies` clause is an implicit loop invariant: assumed for the havocked maps here,
+        # re-established at the end of every iteration (obligation loop-frame)
+        fsets = None
+        if st.depth == 0 and self.cur_contract is not None and (self.cur_contract.modifies or self.cur_contract.use_at_calls) \
+                and self.entry_state is not None and not self.collect_only:
+            try:
+                fsets = self.frame_sets(self.cur_contract, self.entry_state, self.entry_env)
+            except Unsupported:
+                fsets = None
+        loop_frames = []
         for key in sorted(written, key=str):
             if key in h.heap:
                 h.heap[key] = z3.Const(fresh_name('Hl:' + ':'.join(map(str, key))), h.heap[key].sort())
+                if fsets is not None:
+                    was = self.entry_state.heap.get(key)
+                    if was is None:
+                        was = z3.Const('H0:' + ':'.join(str(k) for k in key), h.heap[key].sort())
+                    fg = self.frame_goal(fsets, key, h.heap[key], was, self.entry_state.alloc)
+                    if fg is not None:
+                        h.assume(fg)
+                        loop_frames.append((key, was))
         if written:
             a = z3.Int(fresh_name('alloc'))
             h.assume(a >= h.alloc)
@@ -662,6 +680,10 @@ class StmtMixin:
                         for i, inv in enumerate(invs):
                             g = self.eval_clause(s2, inv, self.visible_env(s2), info, old_st=self.entry_state)
                             self.check(s2, g, '%s/inv[%d]/preserved' % (tag, i), note=str(inv))
+                        for key, was in loop_frames:
+                            fg = self.frame_goal(fsets, key, s2.heap[key], was, self.entry_state.alloc)
+                            label, note = self.frame_label(cname, key)
+                            self.check(s2, fg, label.replace('/frame[', '/loop%s/frame[' % ordinal), note=note)
                         for i, stp in enumerate(steps):
                             if callable(stp):
                                 for nm, g in stp(self, s2, snap):
